@@ -1,7 +1,135 @@
 import Umya.Driver.Proto
+import Umya.Driver.C06View
 import Umya.Model.XmlEsc
+import Umya.Model.StyleCodec
+import Umya.Model.CellXml
 namespace Umya.Driver.C04
 open Umya.XmlEsc Umya.Proto
+open Umya.AnnotCodec Umya.AnnotProt Umya.AnnotView Umya.AnnotPage
+open Umya.Driver.C06View (Z hx fOptText fOptNat fOptBool fOptNum parseTab parseViews parseMargins coordStr)
+
+/-! ## `norm` requests: the model's normal form of a family value, in the spec syntax of `Umya/Driver/C06View.lean`
+
+  `c04 norm <family> <spec of the original's value>` → the spec of `norm` of it.  The harness answers with the spec of
+  the value the implementation holds after one save + load.  The normal forms are the ones of
+  `Umya/Thm/C04Fix.lean` (`normSheet` / `normBook` field by field): `HeaderFooter.norm`, `PageMargins.norm`,
+  `normTab`, `SheetView.norm` (with `Pane.norm`), `Font.norm` (flags and colour), `normalize` (cells), `Row.norm`, `Col.norm`. -/
+
+def sOptText : Option Text → String
+  | none => "~"
+  | some t => "=" ++ hx t
+def sOptNat : Option Nat → String
+  | none => "~"
+  | some n => toString n
+def sOptBool : Option Bool → String
+  | none => "~"
+  | some true => "1"
+  | some false => "0"
+def sOptNum : Option Text → String
+  | none => "~"
+  | some t => String.ofList t
+
+def specTab : Option (Color Z) → String
+  | none => "none"
+  | some c => s!"{sOptNat c.indexed},{sOptNat c.theme},{sOptText c.argb},{sOptNum c.tint}"
+
+def specPane (p : Pane Z) : String :=
+  let ap := match p.activePane with | some v => v.toStrS | none => "~"
+  let st := match p.state with | some v => v.toStrS | none => "~"
+  s!"{sOptNum p.xSplit},{sOptNum p.ySplit},{coordStr p.topLeft},{ap},{st}"
+
+def specSelection (s : Selection) : String :=
+  let pn := match s.pane with | some v => v.toStrS | none => "~"
+  let ac := match s.activeCell with | some c => coordStr c | none => "~"
+  let sq := if s.sqref.isEmpty then "~" else "+".intercalate (s.sqref.map fun ρ => String.ofList ρ.print)
+  s!"{pn},{ac},{sq}"
+
+def specView (v : SheetView Z) : String :=
+  let vw := match v.view with | some x => x.toStrS | none => "~"
+  let pane := match v.pane with | some p => specPane p | none => "~"
+  s!"{sOptBool v.showGridLines},{sOptBool v.tabSelected},{sOptNat v.workbookViewId},{vw},{sOptNat v.zoomScale}," ++
+  s!"{sOptNat v.zoomScaleNormal},{sOptNat v.zoomScalePageLayoutView},{sOptNat v.zoomScaleSheetLayoutView},{sOptText v.topLeftCell}" ++
+  s!";{pane}" ++ "".intercalate (v.selections.map fun s => ";" ++ specSelection s)
+
+def specViews (vs : List (SheetView Z)) : String := if vs.isEmpty then "~" else "|".intercalate (vs.map specView)
+
+def specMargins (m : PageMargins Z) : String :=
+  s!"{sOptNum m.left},{sOptNum m.right},{sOptNum m.top},{sOptNum m.bottom},{sOptNum m.header},{sOptNum m.footer}"
+
+/-- bold, italic and the colour of a font (the part of `Font.norm` that is not the identity) -/
+def normFont (spec : String) : String :=
+  match spec.splitOn "," with
+  | [b, i, ix, th, a, ti] =>
+    match fOptBool b, fOptBool i, fOptNat ix, fOptNat th, fOptText a, fOptNum ti with
+    | some b, some i, some ix, some th, some a, some ti =>
+      let f : Umya.StyleCodec.Font := { bold := b, italic := i, color := { indexed := ix, theme := th, argb := a, tint := ti } }
+      let g := f.norm
+      s!"{sOptBool g.bold},{sOptBool g.italic},{sOptNat g.color.indexed},{sOptNat g.color.theme},{sOptText g.color.argb},{sOptNum g.color.tint}"
+    | _, _, _, _, _, _ => "bad-op"
+  | _ => "bad-op"
+
+def F : Umya.Num.NumFmt := Umya.Num.textFmt []
+
+def parseCell (s : String) : Option (Umya.CellXml.Cell F.Num) :=
+  match s.splitOn "." with
+  | [c, r, v, st] =>
+    match c.toNat?, r.toNat? with
+    | some c, some r =>
+      some { col := c, row := r, raw := if v = "E" then .empty else .str ['x'], formula := none, styled := st = "s" }
+    | _, _ => none
+  | _ => none
+
+/-- the cells of one sheet (`normalize` on a one-sheet workbook): the coordinates that are kept -/
+def normCells (spec : String) : String :=
+  let cells : Option (List (Umya.CellXml.Cell F.Num)) := if spec = "~" then some [] else (spec.splitOn ",").mapM parseCell
+  match cells with
+  | none => "bad-op"
+  | some cs =>
+    match Umya.CellXml.normalize F [cs] with
+    | [kept] => if kept.isEmpty then "~" else ",".intercalate (kept.map fun c => s!"{c.col}.{c.row}")
+    | _ => "bad-op"
+
+/-- a row's own attributes: number, height, descent, thickBot, customHeight, hidden (`Row.norm`) -/
+def normRow (spec : String) : String :=
+  match spec.splitOn "," with
+  | [n, h, d, tb, ch, hid] =>
+    match n.toNat?, fOptNum h, fOptNum d, fOptBool tb, fOptBool ch, fOptBool hid with
+    | some n, some h, some d, some tb, some ch, some hid =>
+      let r : Umya.StyleCodec.Row := { num := n, height := h, descent := d, thickBot := tb, customHeight := ch, hidden := hid }
+      let g := r.norm
+      s!"{g.num},{sOptNum g.height},{sOptNum g.descent},{sOptBool g.thickBot},{sOptBool g.customHeight},{sOptBool g.hidden}"
+    | _, _, _, _, _, _ => "bad-op"
+  | _ => "bad-op"
+
+/-- a column: width, hidden, bestFit (`Col.norm`) -/
+def normCol (spec : String) : String :=
+  match spec.splitOn "," with
+  | [w, hid, bf] =>
+    match fOptBool hid, fOptBool bf with
+    | some hid, some bf =>
+      let c : Umya.StyleCodec.Col := { width := w.toList, hidden := hid, bestFit := bf }
+      let g := c.norm
+      s!"{String.ofList g.width},{sOptBool g.hidden},{sOptBool g.bestFit}"
+    | _, _ => "bad-op"
+  | _ => "bad-op"
+
+def norm (family spec : String) : String :=
+  match family with
+  | "hf" =>
+    match spec.splitOn "," with
+    | [h, f] =>
+      match fOptText h, fOptText f with
+      | some h, some f => let y := HeaderFooter.norm ⟨h, f⟩; s!"{sOptText y.oddHeader},{sOptText y.oddFooter}"
+      | _, _ => "bad-op"
+    | _ => "bad-op"
+  | "margins" => match parseMargins spec with | some m => specMargins m.norm | none => "bad-op"
+  | "tab" => match parseTab spec with | some t => specTab (normTab t) | none => "bad-op"
+  | "views" => match parseViews spec with | some vs => specViews (vs.map SheetView.norm) | none => "bad-op"
+  | "font" => normFont spec
+  | "cells" => normCells spec
+  | "row" => normRow spec
+  | "col" => normCol spec
+  | _ => "bad-op"
 
 /-- `attr <stored> <raw>`: the model checks that the raw attribute text in the file is what
     `attrWrite` produces for the stored text and answers with what `attrRead` makes of it -/
@@ -13,6 +141,7 @@ def handle (args : List String) : String :=
     | some s, some r =>
       if attrWrite s = r then encodeStr (attrRead r) else "written-differently:" ++ encodeStr (attrWrite s)
     | _, _ => "bad-op"
+  | ["norm", family, spec] => norm family spec
   | _ => "bad-op"
 
 end Umya.Driver.C04
